@@ -39,3 +39,320 @@ package mcap
     ensures err == nil ==> newoffset >= offset + 4 && newoffset <= len(data) && len(s) == newoffset - offset - 4
     ensures err != nil ==> newoffset == 0
 @*/
+
+/*@ func getPrefixedMap
+    safety C10
+    requires offset >= 0
+    ensures err == nil ==> newoffset >= offset + 4 && newoffset <= len(data)
+    loop 1 invariant offset >= 4 && offset <= len(data) && inset >= 0 && inset <= len(data) - offset
+@*/
+
+/*@ func ParseChunkIndex
+    safety C10
+    ensures r1 == nil ==> r0 != nil && fresh(r0)
+    loop 1 invariant offset >= 0 && offset <= len(buf) && inset >= 0 && inset <= len(buf) - offset
+@*/
+
+/*@ func ParseStatistics
+    safety C10
+    ensures r1 == nil ==> r0 != nil && fresh(r0)
+    loop 1 invariant offset >= 0 && offset <= len(buf)
+@*/
+
+/*@ func ParseMessageIndex
+    safety C10
+    ensures r1 == nil ==> r0 != nil && fresh(r0)
+    loop 1 invariant offset >= 6 && offset <= len(buf) && start == 6 && len(records) * 16 == offset - 6 && cap(records) == (len(buf) - 2) / 16
+@*/
+
+// ---------------------------------------------------------------------------------------------
+// Lexer (lexer.go, utils.go, parse.go:parseAttachmentReader, crc_reader.go)
+
+/*@ spec wfLexer(l) = l != nil && len(l.buf) == 32 && l.reader != nil && l.basereader != nil
+@*/
+
+/*@ func readUint64
+    safety C10
+    requires len(buf) >= 8 && r != nil
+@*/
+
+/*@ func readPrefixedString
+    safety C10
+    requires len(buf) >= 4 && r != nil
+@*/
+
+/*@ func skipReader
+    safety C10
+    requires r != nil
+@*/
+
+/*@ func validateMagic
+    safety C10
+    requires r != nil
+@*/
+
+/*@ func NewLexer
+    safety C10
+    requires r != nil && (len(opts) > 0 ==> opts[0] != nil)
+    ensures r1 == nil ==> fresh(r0) && wfLexer(r0)
+@*/
+
+/*@ func loadChunk
+    safety C10
+    requires wfLexer(l)
+    touches l
+    ensures wfLexer(l)
+@*/
+
+/*@ func (*Lexer).Next
+    safety C10
+    requires wfLexer(l)
+    touches l
+    ensures wfLexer(l)
+    loop 1 invariant wfLexer(l)
+@*/
+
+/*@ func (*Lexer).Close
+    safety C10
+    requires l != nil
+@*/
+
+/*@ func newCRCReader
+    safety C10
+    ensures result != nil && result.r == r && result.crc != nil
+@*/
+
+/*@ func (*crcReader).Read
+    safety C10
+    requires r != nil && r.r != nil && r.crc != nil
+    ensures r0 >= 0 && r0 <= len(p)
+@*/
+
+/*@ func (*crcReader).Checksum
+    safety C10
+    requires r != nil && r.crc != nil
+@*/
+
+/*@ func parseAttachmentReader
+    safety C10
+    requires r != nil
+    ensures r1 == nil ==> fresh(r0) && r0 != nil && r0.data != nil && r0.crcReader != nil && r0.crcReader.crc != nil && r0.baseReader != nil
+@*/
+
+/*@ spec wfAttachmentReader(ar) = ar != nil && ar.data != nil && ar.crcReader != nil && ar.crcReader.crc != nil && ar.baseReader != nil
+@*/
+
+/*@ func (*AttachmentReader).ComputedCRC
+    safety C10
+    requires wfAttachmentReader(ar)
+@*/
+
+/*@ func (*AttachmentReader).ParsedCRC
+    safety C10
+    requires wfAttachmentReader(ar)
+@*/
+
+// ---------------------------------------------------------------------------------------------
+// Readers and iterators (reader.go, unindexed_message_iterator.go, indexed_message_iterator.go)
+
+/*@ func (*Message).PopulateFrom
+    safety C10
+    requires m != nil
+    touches m
+@*/
+
+/*@ spec wfUnindexed(it) = it != nil && wfLexer(it.lexer)
+@*/
+
+/*@ func (*unindexedMessageIterator).NextInto
+    safety C10
+    requires wfUnindexed(it)
+    touches it, it.lexer, msg
+    ensures wfUnindexed(it)
+    loop 1 invariant wfUnindexed(it) && msg != nil
+@*/
+
+/*@ func (*unindexedMessageIterator).Next
+    safety C10
+    requires wfUnindexed(it)
+    ensures wfUnindexed(it)
+@*/
+
+/*@ spec wfReader(r) = r != nil && wfLexer(r.l) && r.r != nil
+@*/
+
+/*@ func NewReader
+    safety C10
+    requires r != nil
+    ensures r1 == nil ==> wfReader(r0)
+@*/
+
+/*@ func (*Reader).unindexedIterator
+    safety C10
+    requires wfReader(r) && opts != nil
+    touches opts, r.l
+    ensures fresh(result) && wfUnindexed(result)
+@*/
+
+/*@ func (*Reader).indexedMessageIterator
+    safety C10
+    requires wfReader(r) && opts != nil
+    touches opts, r.l
+    ensures fresh(result) && result != nil && result.lexer == r.l && result.rs == r.rs && result.hasReadSummarySection == false
+        && len(result.chunkIndexes) == 0 && len(result.messageIndexes) == 0 && result.curMessageIndex == 0 && result.curChunkIndex == 0
+        && len(result.chunkSlots) == 0 && len(result.metadataIndexes) == 0
+@*/
+
+/*@ func (*indexedMessageIterator).seekTo
+    safety C10
+    requires it != nil && it.rs != nil
+@*/
+
+/*@ func readRecord
+    safety C10
+    requires r != nil
+@*/
+
+/*@ func ParseHeader
+    safety C10
+    ensures r1 == nil ==> r0 != nil && fresh(r0)
+@*/
+/*@ func ParseFooter
+    safety C10
+    ensures r1 == nil ==> r0 != nil && fresh(r0)
+@*/
+/*@ func ParseSchema
+    safety C10
+    ensures r1 == nil ==> r0 != nil && fresh(r0)
+@*/
+/*@ func ParseChannel
+    safety C10
+    ensures r1 == nil ==> r0 != nil && fresh(r0)
+@*/
+/*@ func ParseMessage
+    safety C10
+    ensures r1 == nil ==> r0 != nil && fresh(r0)
+@*/
+/*@ func ParseChunk
+    safety C10
+    ensures r1 == nil ==> r0 != nil && fresh(r0) && len(r0.Records) <= len(buf)
+@*/
+/*@ func ParseAttachmentIndex
+    safety C10
+    ensures r1 == nil ==> r0 != nil && fresh(r0)
+@*/
+/*@ func ParseMetadata
+    safety C10
+    ensures r1 == nil ==> r0 != nil && fresh(r0)
+@*/
+/*@ func ParseMetadataIndex
+    safety C10
+    ensures r1 == nil ==> r0 != nil && fresh(r0)
+@*/
+/*@ func ParseSummaryOffset
+    safety C10
+    ensures r1 == nil ==> r0 != nil && fresh(r0)
+@*/
+/*@ func ParseDataEnd
+    safety C10
+    ensures r1 == nil ==> r0 != nil && fresh(r0)
+@*/
+
+/*@ func (*Reader).Close
+    safety C10
+    requires wfReader(r)
+@*/
+/*@ func (*Reader).Header
+    safety C10
+    requires r != nil
+@*/
+/*@ func (*Reader).GetAttachmentReader
+    safety C10
+    requires wfReader(r) && r.rs != nil
+@*/
+/*@ func (*Reader).GetMetadata
+    safety C10
+    requires wfReader(r) && r.rs != nil
+@*/
+/*@ func (*Reader).Info
+    safety C10
+    requires wfReader(r)
+    touches r, r.l
+    ensures wfReader(r)
+    ensures r1 == nil ==> r0 != nil
+@*/
+/*@ func (*Reader).Messages
+    safety C10
+    requires wfReader(r) && forall(k, 0, len(opts), opts[k] != nil)
+    loop 1 invariant wfReader(r)
+@*/
+
+/*@ func (*ErrUnexpectedToken).Error
+    safety C10
+    requires e != nil && e.err != nil
+@*/
+/*@ func (*ErrUnexpectedToken).Is
+    safety C10
+    requires e != nil
+@*/
+
+/*@ func (*indexedMessageIterator).parseSummarySection$1
+    safety C10
+    requires it != nil && 0 <= i && i < len(it.chunkIndexes) && 0 <= j && j < len(it.chunkIndexes) && it.chunkIndexes[i] != nil && it.chunkIndexes[j] != nil
+@*/
+/*@ func (*indexedMessageIterator).parseSummarySection$2
+    safety C10
+    requires it != nil && 0 <= i && i < len(it.chunkIndexes) && 0 <= j && j < len(it.chunkIndexes) && it.chunkIndexes[i] != nil && it.chunkIndexes[j] != nil
+@*/
+/*@ func (*indexedMessageIterator).parseSummarySection$3
+    safety C10
+    requires it != nil && 0 <= i && i < len(it.chunkIndexes) && 0 <= j && j < len(it.chunkIndexes) && it.chunkIndexes[i] != nil && it.chunkIndexes[j] != nil
+@*/
+/*@ func (*indexedMessageIterator).loadChunk$1
+    safety C10
+    requires 0 <= i && i < len(unreadMessageIndexes) && 0 <= j && j < len(unreadMessageIndexes)
+@*/
+/*@ func (*indexedMessageIterator).loadChunk$2
+    safety C10
+    requires 0 <= i && i < len(unreadMessageIndexes) && 0 <= j && j < len(unreadMessageIndexes)
+@*/
+
+/*@ spec wfIndexed(it) = it != nil && wfLexer(it.lexer) && it.rs != nil
+        && 0 <= it.curMessageIndex && it.curMessageIndex <= len(it.messageIndexes) && 0 <= it.curChunkIndex
+        && forall(k, 0, len(it.chunkIndexes), it.chunkIndexes[k] != nil)
+        && forall(k, 0, len(it.metadataIndexes), it.metadataIndexes[k] != nil)
+@*/
+
+/*@ func (*indexedMessageIterator).parseSummarySection
+    safety C10
+    requires wfIndexed(it) && !it.hasReadSummarySection
+    touches it
+    ensures wfIndexed(it)
+    ensures err == nil ==> it.fileSize >= 28 && it.hasReadSummarySection
+    ensures err != nil ==> !it.hasReadSummarySection
+    loop 1 invariant wfIndexed(it) && it.fileSize >= 28 && wfLexer(lexer)
+@*/
+
+/*@ func (*indexedMessageIterator).loadChunk
+    safety C10
+    requires wfIndexed(it) && chunkIndex != nil && it.fileSize >= 28
+    touches it
+    ensures wfIndexed(it) && it.fileSize >= 28
+    loop 2 invariant len(it.messageIndexes) >= startIdx
+@*/
+
+/*@ func (*indexedMessageIterator).NextInto
+    safety C10
+    requires wfIndexed(it) && (it.hasReadSummarySection ==> it.fileSize >= 28)
+    touches it, msg
+    ensures wfIndexed(it) && (it.hasReadSummarySection ==> it.fileSize >= 28)
+    loop 1 invariant wfIndexed(it) && msg != nil && it.fileSize >= 28
+    loop 2 invariant wfIndexed(it) && msg != nil && it.fileSize >= 28
+@*/
+
+/*@ func (*indexedMessageIterator).Next
+    safety C10
+    requires wfIndexed(it) && (it.hasReadSummarySection ==> it.fileSize >= 28)
+    touches it
+    ensures wfIndexed(it) && (it.hasReadSummarySection ==> it.fileSize >= 28)
+@*/
